@@ -134,6 +134,25 @@ static void do_big(long it)
     free(ks); free(m); free(o);
 }
 
+/* ---- 64-bit counters that start FAR below a multiple of 2^32 and run across it within one call (distance x length jointly): a fast path
+ * chosen once per call from the starting counter must still handle the carry it meets thousands of blocks later ---- */
+static void do_far_carry(long it)
+{
+    static const uint64_t DIST[6] = { 4097, 5003, 8200, 12345, 40000, 70001 }; static const uint64_t BASEC[3] = { 1ULL << 32, 1ULL << 33, 0xffffffff00000000ULL + 0 };
+    const cipher *C = &CIPHERS[it / 18]; uint64_t D = DIST[(it % 18) / 3], base = BASEC[it % 3], ic; size_t len, i; unsigned char key[32], nonce[24], *ks, *m, *o; char keystr[160]; int r;
+    if (C->ctrbits != 64) return;
+    if (D > 13000 && !thorough && (it % 3)) return;
+    ic = base - D; if (base == BASEC[2]) ic = 0xffffffffffffffffULL - D + 1;       /* the third base is the wrap of the full 64-bit counter: only up to it */
+    len = (size_t) ((D + (base == BASEC[2] ? 0 : 37)) * 64 - (base == BASEC[2] ? 0 : 17));
+    ks = malloc(len + 64); m = malloc(len + 64); o = malloc(len + 96);
+    vf_pat(key, 32, PAT_R1, 81); vf_pat(nonce, 24, PAT_C, 82); vf_pat(m, len, PAT_R2, 83);
+    C->ref(ks, NULL, len, key, nonce, ic); for (i = 0; i < len; i++) ks[i] ^= m[i];
+    memset(o, 0xA5, len + 32); r = C->xic64(o + 16, m, len, nonce, ic, key); n_eval++; n_nontriv++;
+    if (r != 0 || memcmp(o + 16, ks, len) || o[15] != 0xA5 || o[16 + len] != 0xA5) { size_t d = 0; while (d < len && o[16 + d] == ks[d]) d++;
+        snprintf(keystr, sizeof keystr, "%s/xor_ic/len=%zu/ic=%" PRIu64 "/far-carry", C->name, len, ic); vf_fail(keystr, "ret=%d first differing byte %zu (block %zu of the request)", r, d, d / 64); }
+    free(ks); free(m); free(o);
+}
+
 /* ---- core functions ---- */
 static void cores(void)
 {
@@ -253,6 +272,7 @@ int main(void)
     }
     vf_parallel(16, 0, nitems, do_item, fin);
     vf_parallel(16, 0, (long) (NCIPH * NBIGL), do_big, fin);
+    vf_parallel(16, 0, (long) (NCIPH * 18), do_far_carry, fin);
     cores();
     limit_probes();
     fin();
